@@ -55,7 +55,7 @@ theorem C07_fallible_same_statement_order :
       && bodyOrder Gen.tmpl_quote_try_into_existing_trait == bodyOrder Gen.tmpl_quote_into_existing_trait) = true := by decide
 
 /-- non-vacuity: the post-init dialect of `Into` really splices `init` before `post_init` -/
-example : (bodyOrder Gen.tmpl_quote_into_trait).head? = some ["dst", "init", "post_init"] := by decide
+example : (bodyOrder Gen.tmpl_quote_into_trait).head? = some ["pre_init", "dst", "those_gens", "init", "post_init"] := by decide
 
 /-- the source object named by the generated code depends only on the direction, not on owned / by-ref / fallible -/
 theorem C07_same_source_object (k k' : Kind) (h : k.isFrom = k'.isFrom) : srcIdent k = srcIdent k' := by
